@@ -6,14 +6,18 @@ from nqlib import run_standard, VERIF, byte_mutations, kv
 
 RULE = ("every byte string over {CR,LF,'.','x'} up to length %s (exhaustive; read chunkings full/1/2), each also followed by "
         "CRLF.CRLF and a next command; every header of up to 4 lines from an 11-line Received/Delivered-To near-miss set; seeded random "
-        "streams up to 64 KiB; run through the real qmail-smtpd.c blast() (ASan+UBSan build of the working tree) and the Lean model "
+        "streams up to 64 KiB; for strings up to length %s followed by the terminator a failing read() after j one-byte reads for every j; "
+        "run through the real qmail-smtpd.c blast() over the program's OWN ssin as its static initialiser sets it up (saferead, descriptor 0, "
+        "ssinbuf and its size; the program is built as an object of its own whose data sections are restored to the load-time image before every "
+        "case; ASan+UBSan build of the working tree) and the Lean model "
         "dblast/hopsOf; compared on verdict, stored bytes, bytes consumed and hop count; the oracle is the line-based reference decoder "
         "rfcDecode and the line-based hop count HopCount.hopSpec (theorem C05_hops) evaluated on the implementation's behaviour; "
         "chunking (theorems C05_chunking*): streams of 1-8 KiB each delivered under read plans 1/2/1023/1024/1025/full/mixed/random short reads/"
         "bytes already buffered/a failing read, and every framing string up to length %s placed at every offset across the 1024-byte buffer refill; "
         "the composed Lean model sblast (substdio_get(1) over Nq.Substdio with the plan as read script) is compared with the implementation on "
         "verdict, stored bytes, consumed count, final ssin.p/ssin.n and the number of read() calls; the chunk-independence oracle requires every "
-        "split of a stream to give the same verdict/stored bytes/consumed count; non-trivial = distinct input containing CR or LF")
+        "split of a stream to give the same verdict/stored bytes/consumed count; a death under a plan with a failing read is accepted only if the "
+        "reference decoder has no verdict on the bytes delivered so far and the process stopped at the failing call; non-trivial = distinct input containing CR or LF")
 
 PREFIXES = ("0", "1", "2", "1023", "1023,1")
 
@@ -47,7 +51,7 @@ def builder(s):
 
 run_standard("C05", "Nq.Props.C05", "drv_c05", "harness/c05_blast.c", "qmail-smtpd",
              ["qmail.o", "timeoutread.o", "timeoutwrite.o"],
-             "9 4000", "12 60000", {"quick": RULE % (9, 5), "thorough": RULE % (12, 8)},
+             "9 4000", "12 60000", {"quick": RULE % (9, 5, 5), "thorough": RULE % (12, 8, 8)},
              "dblast/hopsOf (Nq/SmtpIn.lean) and sblast over Nq.Substdio (Nq/SmtpIO.lean) vs qmail-smtpd.c blast() over substdi.c", alphabet=b"\r\n.x",
              builder=builder, mutate=mutate, stdin_prefixes=PREFIXES,
              assumptions=["the value-level substdio model (Nq/Substdio.lean: the buffer is the list of unread bytes, not the array x) is tied to "
